@@ -48,7 +48,7 @@ def run(t, budget=1.0):
             c04.root_walk(data, sq, L, vals, lay)
             exp = "OK " + " ".join(sq.exp + ["size_by_cursor=%d" % sq.cur, "BUF " + bytes(sq.buf).hex()])
             line = "cursortag %d %s %s" % (mi, img.hex(), " ".join(sq.tok))
-            for cfg in entry.status["configs"]:
+            for cfg in entry.value_configs():
                 resp = pc.call(entry, cfg, line)
                 res.count()
                 res.cls("by_tag_cursor_sequences")
@@ -71,7 +71,7 @@ def run(t, budget=1.0):
             sc.rets.append("hdr=0")
             c01.draw_level(data, sc, L, M.header.size, L.block_length, 0)
             exp_buf = bytes(sc.buf).hex()
-            for cfg in entry.status["configs"]:
+            for cfg in entry.value_configs():
                 line = "encodetag %d %s %s" % (mi, bg.hex(), " ".join(sc.tok))
                 resp = pc.call(entry, cfg, line)
                 res.count()
@@ -89,7 +89,7 @@ def run(t, budget=1.0):
         hx = img.hex()
         if part == "gettag":
             exp = M.dump_message(L, vals, with_consts=True, tag_extras=True)
-            for cfg in entry.status["configs"]:
+            for cfg in entry.value_configs():
                 resp = pc.call(entry, cfg, "dump %d tag %s" % (mi, hx))
                 res.count()
                 res.cls("get_by_tag_dumps")
@@ -109,7 +109,7 @@ def run(t, budget=1.0):
             ks = sorted(set([0, 1, 2, n - 1, n, n + 1] + data.draw(st.lists(st.integers(1, n), min_size=8, max_size=8))))
         checkable = decode_common.cursor_end_checkable(L)
         rich = n >= 3 and any(e.startswith(("E ", "C ")) for e in ev)
-        cfgs = entry.status["configs"]
+        cfgs = entry.value_configs()
         for k in ks:
             stopped = 1 <= k <= n
             shown = ev[:k] if stopped else ev
